@@ -12,6 +12,10 @@ import traceback
 from . import core
 
 
+# ops whose cases are also executed on the MiniGo programs regenerated from /repo (driver ops `mg.<op>`)
+MG_OPS = ("verdict ", "iter.seq ", "jobcounter ", "dist ")
+
+
 def default_compare(rec):
     if rec["model"] == "-":       # op without a model run: Spec alone decides
         return None
@@ -119,6 +123,7 @@ def run_check(pid, tier, seed, replay=None):
         recs = []
         fails, diffs = [], []
         extra_stats = {}
+        extra_stats_mg = {}
         if harness is not None and os.path.exists(core.F1MODEL):
             rng = random.Random(seed)
             if replay:
@@ -131,6 +136,22 @@ def run_check(pid, tier, seed, replay=None):
             if cases:
                 recs, err = core.run_pipeline(harness, cases)
                 fails, diffs = evaluate(prop, recs)
+            # ---- 3b. the regenerated MiniGo programs, executed on the same cases (translator + semantics vs the real code)
+            mirror = ["mg." + c for c in cases if c.startswith(MG_OPS)]
+            if mirror:
+                cap = 800 if tier == "quick" else 8000
+                if len(mirror) > cap:
+                    stepm = len(mirror) / float(cap)
+                    mirror = [mirror[int(i * stepm)] for i in range(cap)]
+                mrecs, _ = core.run_pipeline(harness, mirror)
+                mg_bad = [r for r in mrecs if r["impl"] != r["model"]]
+                for r in mg_bad:
+                    r["why"] = "correspondence: regenerated MiniGo program says %s, implementation says %s" % (r["model"], r["impl"])
+                    r["mg"] = True
+                diffs += mg_bad
+                extra_stats_mg = {"minigo_cases": len(mrecs), "minigo_disagreements": len(mg_bad)}
+            else:
+                extra_stats_mg = {}
             # ---- 4. further engines (scripted schedules, whole runs)
             if hasattr(prop, "extra") and not (replay and not replay.get("extra")):
                 ctx = Ctx(prop, tier, seed, harness)
@@ -157,7 +178,8 @@ def run_check(pid, tier, seed, replay=None):
                         break
 
         # ---- 6. classify
-        sig = getattr(prop, "signature", lambda r: r["case"])
+        psig = getattr(prop, "signature", lambda r: r["case"])
+        sig = lambda r: r["case"] if r.get("mg") else psig(r)
         new_fails = []
         for r in fails:
             s = sig(r)
@@ -213,6 +235,7 @@ def run_check(pid, tier, seed, replay=None):
         if not cov["samples"]:
             cov["samples"] = [{"obligations": thms[:10]}]
         cov.update(extra_stats)
+        cov.update(extra_stats_mg)
         if hasattr(prop, "distribution"):
             cov["distribution"] = prop.distribution(recs)
     except Exception as e:  # the machinery itself broke: never report that as "held"
